@@ -1,5 +1,6 @@
 (* C05 — Kernels are symmetric, positive semi-definite and correctly differentiable.
-   Only statements + `exact`; the proofs live in C05Proofs.v / C05Aux.v, the executable model in C05Model.v.
+   Only statements + `exact`; the proofs live in C05Proofs.v / C05Aux.v / C05Deriv.v / C05GaussReal.v / C05PointSetProofs.v /
+   C05ExprProofs.v / C05BlocksProofs.v / C05TaskProofs.v, the executable model in C05Model.v / C05Expr.v / C05Blocks.v / C05Task.v.
 
    Setting.  The model is written once over an abstract carrier A; every theorem below holds for EVERY ordered
    field (record OrdField: field_theory with Leibniz equality + an order compatible with + and *, squares >= 0);
@@ -43,15 +44,58 @@
    NO CODED DERIVATIVE (nothing to prove): ProductKernel sets neither HAS_FIRST_PARAMETER_DERIVATIVE nor
        HAS_FIRST_INPUT_DERIVATIVE and overrides neither routine; ModelKernel has no input derivative.  tools/c05.py
        checks the flags on every case (a kernel expression has a model gradient iff the C++ reports one).
-   PARTIAL:
-     * C05_psd_gaussian_partial: PSD of the Gaussian kernel is reduced to PSD of (x,z) |-> exp(2 g <x,z>) for any
-       expA with exp(a+b) = exp a * exp b; the remaining step (exponential series / Bochner) is NOT proved.
-       Full statement: forall n g, 0 <= g -> PSDOn (dimP n) (k_gauss g) over the reals with expA = exp.
+   PROVED OVER THE REAL NUMBERS (C05GaussReal.v; A := R of Coq's Reals, expA := exp; R is an OrdField:
+       C05_real_ordered_field_instance.  Axioms, as printed below: ClassicalDedekindReals.sig_forall_dec,
+       ClassicalDedekindReals.sig_not_dec, FunctionalExtensionality.functional_extensionality_dep - the ones behind
+       Coq's real numbers and exp; nothing else):
+     * C05_psd_gaussian: forall n, g >= 0, all finite weighted point lists in R^n: sum_ij c_i c_j exp(-g |x_i-x_j|^2) >= 0
+       (the full statement that C05_psd_gaussian_partial left open; route: exp = limit of its Taylor sums, every
+       Taylor sum of exp(2g<x,z>) is a non-negative combination of monomial kernels and has a finite feature map,
+       quadratic forms are continuous in the kernel values, limits of non-negative reals are non-negative);
+       C05_psd_exponentiated_inner_product discharges the premise of C05_psd_gaussian_partial (kept, any expA);
+     * C05_psd_ard: the same for the ARD kernel with all gamma_i >= 0 (pull-back of the Gaussian kernel along
+       x_i |-> sqrt(gamma_i) x_i; no condition on the length of the gamma vector);
+     * C05_limit_features_*: the class LimRepOn of kernels that are point-wise limits of kernels with finite non-negative
+       feature maps contains every kernel with a feature map, the Gaussian and the ARD kernel, is closed under ScaledKernel
+       (factor >= 0), WeightedSumKernel (weights >= 0), ProductKernel, NormalizedKernel (ANY normaliser function),
+       pull-backs (ModelKernel, MklKernel components), SubrangeKernel, PointSetKernel (non-empty sets), and every member
+       is positive semi-definite (C05_limit_features_implies_psd);
+     * C05_psd_expression: EVERY kernel expression of the grammar that the generator / harness / driver use (C05Expr.kexp:
+       Linear, Polynomial, Monomial, GaussianRbf, ARD, Normalized, Scaled, WeightedSum, Product, Subrange, Model(LinearModel),
+       nested to any depth) with admissible parameters (adm: offsets, gammas, factors, weights >= 0, sub-ranges inside the
+       input dimension) denotes a positive semi-definite kernel; C05_psd_expression_point_set: PointSetKernel over any such
+       expression.  den e is executed next to the C++ kernel on every case (field SE, batch path bden e: field BE).
+     * C05_limit_closure_* / C05_psd_gaussian_task_kernel / C05_psd_multi_task_kernel(_expression) (C05TaskProofs.v, model
+       C05Task.v): LimClos = closure of the feature-map kernels under point-wise sequential limits (inductive) is closed
+       under sums, products (Schur), k |-> exp(c k) for c >= 0 and "Gaussian kernel in the feature space of k", contains every
+       admissible kernel expression, and its members are positive semi-definite; GaussianTaskKernel's table (Gaussian of
+       the distances between the kernel mean embeddings of the tasks' examples; tasks without example allowed) is a
+       positive semi-definite DiscreteKernel on the task indices for every symmetric input kernel of the class and
+       gamma >= 0; MultiTaskKernel (input kernel x task kernel) is positive semi-definite.  The table is the one
+       computeMatrix() produces from a cleared matrix: before /repo's repair (fix: m_matrix.clear()) every
+       setParameterVector() accumulated onto the previous table (entries > 1, not PSD) - monitored in every T case
+       (check task-kernel-reinit: table unchanged, symmetric, unit diagonal, no negative eigenvalue after
+       setParameterVector(parameterVector()) round trips).  Not covered: setGamma()/setWidth() do not recompute the table.
+   PROVED (any ordered field, no axioms), added with the extension:
+     * C05_features_discrete_factorised: a DiscreteKernel whose table is a Gram matrix a a^T has a feature map (PSD);
+     * C05_expression_symmetric / C05_expression_batch: every kernel expression is symmetric and its batch path is the
+       matrix of single evaluations (on the points where every NormalizedKernel inside has a non-zero normaliser);
+       C05_features_expression: expressions without exponentials (non-zero weight sums) have a finite feature map, hence
+       are positive semi-definite in every ordered field; C05_features_point_set: PointSetKernel keeps a feature map
+       (feature of a set = mean of the features of its points);
+     * C05_mixed_gram_is_matrix_of_single_evaluations / _partition_invariant: calculateMixedKernelMatrix is entry-wise
+       k(x_i, z_j), independent of the batching of both datasets (model C05Blocks.gram_mixed, field MX);
+     * C05_kernel_matrix_parameter_derivative / _partition_invariant: calculateKernelMatrixParameterDerivative (loop over the
+       batch pairs j <= i, sub-matrices of the weights, factor 2 off the diagonal; model C05Blocks.kmpd, field KD) equals
+       weightedParameterDerivative of the whole Gram matrix = sum_ij W_ij dk(x_i,x_j)/dp for symmetric weights and a
+       symmetric coded gradient, hence does not depend on the batching.
    ONLY COMPARED / MONITORED (tools/c05.py): the correspondence of the C++ with this model (exact on
-       integer/dyadic inputs, 1e-11 otherwise), including every g_ / p_ function above against the C++ derivative calls;
-       ARD/Gaussian eigenvalues; derivatives of point-set kernels, MklKernel and of PolynomialKernel with the degree as
-       parameter (finite differences only); sparse inputs; calculateMixedKernelMatrix, KernelMatrix,
-       calculateKernelMatrixParameterDerivative (finite differences). *)
+       integer/dyadic inputs, 1e-11 otherwise), including every g_ / p_ function above against the C++ derivative calls and
+       the new model functions den / bden / gram_mixed / kmpd / gt_matrix / k_mtask (fields SE, BE, MX, KD, TK, MT);
+       eigenvalues of the FLOATING-POINT Gram matrices (the theorems over R say nothing about rounding); derivatives of
+       point-set kernels, MklKernel and of PolynomialKernel with the degree as parameter (finite differences only: the
+       degree is a discrete parameter, PointSetKernel/MklKernel gradients are not modelled); sparse inputs;
+       KernelMatrix::entry/row/matrix (compared with the single evaluations). *)
 From Coq Require Import List Arith Bool.
 From Coq Require Import QArith Qcanon.
 From SharkV Require Import C03Model C05Model C05Proofs C05Aux C05Deriv.
@@ -460,3 +504,236 @@ Example C05_composed_derivative_premises_satisfiable :
   ((0 <= 1)%nat /\ (1 <= 2)%nat /\
    (forall v : list Qc, length v = 2%nat -> DirAll Qc v -> DirAll Qc (subvec Qc 0 1 v))).
 Proof. exact composed_deriv_hyps_example. Qed.
+
+(* ================================================================== the real numbers: A := R, expA := exp ==== *)
+From Coq Require Import Reals.
+From SharkV Require Import C05GaussReal C05Expr C05PointSetProofs C05ExprProofs C05Blocks C05BlocksProofs C05Task C05TaskProofs.
+
+Theorem C05_real_ordered_field_instance : OrdField 0%R 1%R Rplus Rmult Rminus Rdiv Ropp Rinv Rle.
+Proof. exact R_ordfield. Qed.
+(* the premise that C05_psd_gaussian_partial left open, for every factor c >= 0 (there: c = 2 g) *)
+Theorem C05_psd_exponentiated_inner_product : forall n c, (0 <= c)%R ->
+  PSDOn R 0%R Rplus Rmult Rle (list R) (dimP R n) (fun x z => exp (c * dot R 0%R Rplus Rmult x z)).
+Proof. exact psd_exp_dot. Qed.
+Theorem C05_psd_gaussian : forall n g, (0 <= g)%R ->
+  PSDOn R 0%R Rplus Rmult Rle (list R) (dimP R n) (k_gauss R 0%R Rplus Rmult Rminus Ropp exp g).
+Proof. exact psd_gaussian. Qed.
+(* the same statement with PSDOn / dimP unfolded: pts = [(c_1,x_1); ...; (c_m,x_m)], qform = sum_ij c_i c_j k(x_i,x_j) *)
+Theorem C05_psd_gaussian_quadratic_forms : forall n g (pts : list (R * list R)), (0 <= g)%R ->
+  Forall (fun p => length (snd p) = n) pts ->
+  (0 <= qform R 0%R Rplus Rmult (list R) (k_gauss R 0%R Rplus Rmult Rminus Ropp exp g) pts)%R.
+Proof. exact (fun n g pts Hg H => psd_gaussian n g Hg pts H). Qed.
+Theorem C05_psd_ard : forall n gs, Forall (Rle 0%R) gs ->
+  PSDOn R 0%R Rplus Rmult Rle (list R) (dimP R n) (k_ard R 0%R Rplus Rmult Rminus Ropp exp gs).
+Proof. exact psd_ard. Qed.
+Print Assumptions C05_real_ordered_field_instance.
+Print Assumptions C05_psd_exponentiated_inner_product.
+Print Assumptions C05_psd_gaussian.
+Print Assumptions C05_psd_gaussian_quadratic_forms.
+Print Assumptions C05_psd_ard.
+
+(* ---- kernels that are point-wise limits of kernels with finite non-negative feature maps (LimRepOn): this class
+   contains every kernel with a feature map, the Gaussian and the ARD kernel, is closed under all combinators of the
+   model, and every member is positive semi-definite ---- *)
+Notation RLim := LimRepOn.
+Notation RPSDOn := (PSDOn R 0%R Rplus Rmult Rle).
+Notation RGRepOn := (GramRepOn R 0%R Rplus Rmult Rle).
+Theorem C05_limit_features_implies_psd : forall X (P : X -> Prop) k, RLim X P k -> RPSDOn X P k.
+Proof. exact limrep_psd. Qed.
+Theorem C05_limit_features_of_features : forall X (P : X -> Prop) k, RGRepOn X P k -> RLim X P k.
+Proof. exact limrep_of_gramrep. Qed.
+Theorem C05_limit_features_gaussian : forall n g, (0 <= g)%R -> RLim (list R) (dimP R n) (k_gauss R 0%R Rplus Rmult Rminus Ropp exp g).
+Proof. exact limrep_gauss. Qed.
+Theorem C05_limit_features_ard : forall n gs, Forall (Rle 0%R) gs -> RLim (list R) (dimP R n) (k_ard R 0%R Rplus Rmult Rminus Ropp exp gs).
+Proof. exact limrep_ard. Qed.
+Theorem C05_limit_features_scaled : forall X (P : X -> Prop) c k, (0 <= c)%R -> RLim X P k -> RLim X P (k_scaled R Rmult X c k).
+Proof. exact limrep_scaled. Qed.
+(* over R the weight sum may even be 0 (Rinv 0 = 0) *)
+Theorem C05_limit_features_weighted_sum : forall X (P : X -> Prop) wks,
+  Forall (fun wk => (0 <= fst wk)%R /\ RLim X P (snd wk)) wks -> RLim X P (k_wsum R 0%R Rplus Rmult Rdiv X wks).
+Proof. exact limrep_wsum. Qed.
+Theorem C05_limit_features_product : forall X (P : X -> Prop) ks, Forall (RLim X P) ks -> RLim X P (k_prod R 1%R Rmult X ks).
+Proof. exact limrep_prod. Qed.
+Theorem C05_limit_features_normalized : forall X (sq : R -> R) (P : X -> Prop) k, RLim X P k -> RLim X P (k_norm R Rdiv sq X k).
+Proof. exact limrep_norm. Qed.
+Theorem C05_limit_features_pullback : forall X Y (f : X -> Y) (P : Y -> Prop) k, RLim Y P k -> RLim X (fun x => P (f x)) (k_pull R f k).
+Proof. exact limrep_pull. Qed.
+Theorem C05_limit_features_subrange : forall N a b k,
+  (a <= b)%nat -> (b <= N)%nat -> RLim (list R) (dimP R (b - a)%nat) k -> RLim (list R) (dimP R N) (k_sub R a b k).
+Proof. exact limrep_sub. Qed.
+(* PointSetKernel on non-empty sets of points of P *)
+Theorem C05_limit_features_point_set : forall (P : list R -> Prop) k,
+  RLim (list R) P k -> RLim (list (list R)) (RPSetDom P) (k_pset R 0%R 1%R Rplus Rmult Rdiv k).
+Proof. exact limrep_pset. Qed.
+
+(* ---- ALL kernel expressions (C05Expr.kexp: the grammar of the generator, the harness and the driver; den e is the
+   function the driver executes next to the C++ kernel on every case, field SE): every expression with admissible
+   parameters (adm: offsets, gammas, factors, weights >= 0, sub-ranges inside the input dimension) denotes a positive
+   semi-definite kernel over the reals; sq (the normaliser of NormalizedKernel) may be ANY function ---- *)
+Theorem C05_psd_expression : forall (sq : R -> R) e n, adm R 0%R Rle n e ->
+  RPSDOn (list R) (dimP R n) (den R 0%R 1%R Rplus Rmult Rminus Rdiv Ropp sq exp e).
+Proof. exact psd_expr. Qed.
+Theorem C05_psd_expression_point_set : forall (sq : R -> R) e n, adm R 0%R Rle n e ->
+  RPSDOn (list (list R)) (RPSetDom (dimP R n)) (k_pset R 0%R 1%R Rplus Rmult Rdiv (den R 0%R 1%R Rplus Rmult Rminus Rdiv Ropp sq exp e)).
+Proof. exact psd_pset_expr. Qed.
+Print Assumptions C05_limit_features_implies_psd.
+Print Assumptions C05_limit_features_of_features.
+Print Assumptions C05_limit_features_gaussian.
+Print Assumptions C05_limit_features_ard.
+Print Assumptions C05_limit_features_scaled.
+Print Assumptions C05_limit_features_weighted_sum.
+Print Assumptions C05_limit_features_product.
+Print Assumptions C05_limit_features_normalized.
+Print Assumptions C05_limit_features_pullback.
+Print Assumptions C05_limit_features_subrange.
+Print Assumptions C05_limit_features_point_set.
+Print Assumptions C05_psd_expression.
+Print Assumptions C05_psd_expression_point_set.
+
+(* ---- kernel expressions over ANY ordered field (no axioms) ---- *)
+Section ExpressionStatements.
+Variable A : Type.
+Variables (zero one : A) (add mul sub div : A -> A -> A) (opp inv : A -> A) (le : A -> A -> Prop).
+Variables (sqrtA expA : A -> A).
+Hypothesis OF : OrdField zero one add mul sub div opp inv le.
+Notation denA := (den A zero one add mul sub div opp sqrtA expA).
+Notation bdenA := (bden A zero one add mul sub div opp sqrtA expA).
+Theorem C05_expression_symmetric : forall e x z, denA e x z = denA e z x.
+Proof. exact (den_sym A zero one add mul sub div opp inv le sqrtA expA OF). Qed.
+(* the batch path of every expression = matrix of single evaluations, on the points where every NormalizedKernel
+   inside divides by a non-zero normaliser (edom) *)
+Theorem C05_expression_batch : forall e,
+  BatchOKOn A (list A) (edom A zero one add mul sub div opp sqrtA expA e) (denA e) (bdenA e).
+Proof. exact (bden_ok A zero one add mul sub div opp inv le sqrtA expA OF). Qed.
+(* expressions without exponentials whose weight sums are non-zero have a finite non-negative feature map *)
+Theorem C05_features_expression : forall e n, adm A zero le n e -> algebraic A zero add e ->
+  GramRepOn A zero add mul le (list A) (dimP A n) (denA e).
+Proof. exact (gramrep_expr A zero one add mul sub div opp inv le sqrtA expA OF). Qed.
+(* PointSetKernel: the feature of a set is the mean of the features of its points *)
+Theorem C05_features_point_set : forall (P : list A -> Prop) k, GramRepOn A zero add mul le (list A) P k ->
+  GramRepOn A zero add mul le (list (list A)) (PSetDom A zero one add (list A) P) (k_pset A zero one add mul div k).
+Proof. exact (gramrep_pset A zero one add mul sub div opp inv le OF). Qed.
+End ExpressionStatements.
+Print Assumptions C05_expression_symmetric.
+Print Assumptions C05_expression_batch.
+Print Assumptions C05_features_expression.
+Print Assumptions C05_features_point_set.
+
+(* adm / algebraic / the point-set domain are satisfiable: a normalised weighted sum of a Gaussian kernel and a product of
+   an ARD kernel, a polynomial kernel and a Gaussian kernel on a sub-range, inputs of dimension 2 *)
+Example C05_expression_premises_satisfiable :
+  adm R 0%R Rle 2 (ENorm R (EWsum R [1%R; 2%R] [ERbf R (/ 2)%R; EProd R [EArd R [1%R; 2%R]; EPoly R 2 1%R; ESub R 0 1 (ERbf R 1%R)]])) /\
+  algebraic Qc (Q2Qc 0) Qcplus (EWsum Qc [1%Qc; 1%Qc] [ELin Qc; EScaled Qc 1%Qc (EMono Qc 2)]) /\
+  RPSetDom (dimP R 2) [[1%R; 2%R]].
+Proof. exact expr_hyps_example. Qed.
+
+(* ---- the block-wise dataset routines of KernelHelpers.h (C05Blocks.v; any ordered field, no axioms) ---- *)
+Section BlockStatements.
+Variable A : Type.
+Variables (zero one : A) (add mul sub div : A -> A -> A) (opp inv : A -> A) (le : A -> A -> Prop).
+Hypothesis OF : OrdField zero one add mul sub div opp inv le.
+(* calculateMixedKernelMatrix: entry (i,j) = k(x_i, z_j) over the element lists of the two datasets, whatever their batching *)
+Theorem C05_mixed_gram_is_matrix_of_single_evaluations : forall X (P : X -> Prop) k bk (d1 d2 : list (list X)),
+  BatchOKOn A X P k bk -> Forall (Forall P) d1 -> Forall (Forall P) d2 ->
+  gram_mixed A X bk d1 d2 = mk A X k (elems d1) (elems d2).
+Proof. exact (gram_mixed_ok A). Qed.
+Theorem C05_mixed_gram_partition_invariant : forall X (P : X -> Prop) k bk (d1 d2 d1' d2' : list (list X)),
+  BatchOKOn A X P k bk -> Forall (Forall P) d1 -> Forall (Forall P) d2 -> Forall (Forall P) d1' -> Forall (Forall P) d2' ->
+  elems d1 = elems d1' -> elems d2 = elems d2' -> gram_mixed A X bk d1 d2 = gram_mixed A X bk d1' d2'.
+Proof. exact (gram_mixed_partition_invariant A). Qed.
+(* calculateKernelMatrixParameterDerivative (blocks j <= i, sub-matrices of the weights, factor 2 off the diagonal) =
+   weightedParameterDerivative of the whole Gram matrix, sum_ij W_ij dk(x_i,x_j)/dp, for symmetric weights W (n x n,
+   n = number of elements) and a coded per-pair gradient p with p(x,z) = p(z,x) of constant length m *)
+Theorem C05_kernel_matrix_parameter_derivative : forall (p : list A -> list A -> list A) m (W : list (list A)) (d : list (list (list A))),
+  (forall x z, length (p x z) = m) ->
+  (forall i j, nth j (nth i W []) zero = nth i (nth j W []) zero) -> (forall x z, p x z = p z x) ->
+  square A W (length (elems d)) ->
+  kmpd A zero one add mul (list A) (wpdv A zero add mul m p) W m d = wpdv A zero add mul m p W (elems d) (elems d).
+Proof. exact (kmpd_correct_vec A zero one add mul sub div opp inv le OF). Qed.
+Theorem C05_kernel_matrix_parameter_derivative_partition_invariant :
+  forall (p : list A -> list A -> list A) m (W : list (list A)) (d1 d2 : list (list (list A))),
+  (forall x z, length (p x z) = m) ->
+  (forall i j, nth j (nth i W []) zero = nth i (nth j W []) zero) -> (forall x z, p x z = p z x) ->
+  square A W (length (elems d1)) -> elems d1 = elems d2 ->
+  kmpd A zero one add mul (list A) (wpdv A zero add mul m p) W m d1 = kmpd A zero one add mul (list A) (wpdv A zero add mul m p) W m d2.
+Proof. exact (kmpd_partition_invariant_vec A zero one add mul sub div opp inv le OF). Qed.
+End BlockStatements.
+Print Assumptions C05_mixed_gram_is_matrix_of_single_evaluations.
+Print Assumptions C05_mixed_gram_partition_invariant.
+Print Assumptions C05_kernel_matrix_parameter_derivative.
+Print Assumptions C05_kernel_matrix_parameter_derivative_partition_invariant.
+(* the premises are satisfiable: gamma-gradient of the Gaussian kernel, symmetric 2x2 weights, two batches of one point *)
+Example C05_kernel_matrix_parameter_derivative_premises_satisfiable :
+  let p := p_one Qc (p_gauss Qc (Q2Qc 0) Qcplus Qcmult Qcminus Qcopp (fun _ => 1%Qc) 1%Qc) in
+  let W := [[1%Qc; Q2Qc 2]; [Q2Qc 2; Q2Qc 3]] in
+  let d := [[[1%Qc]]; [[Q2Qc 2]]] in
+  (forall x z, length (p x z) = 1%nat) /\
+  (forall i j, nth j (nth i W []) (Q2Qc 0) = nth i (nth j W []) (Q2Qc 0)) /\ (forall x z, p x z = p z x) /\
+  square Qc W (length (concat d)).
+Proof. exact kmpd_hyps_example. Qed.
+
+(* ---- GaussianTaskKernel / MultiTaskKernel (MultiTaskKernel.h; model C05Task.v, run next to the C++ in the T cases) ----
+   LimClos P = closure of the kernels with finite non-negative feature maps under point-wise sequential limits; closed under
+   sums, products and k |-> exp(c k), c >= 0; contains every admissible kernel expression; members are PSD. *)
+Theorem C05_limit_closure_implies_psd : forall X (P : X -> Prop) k, LimClos P k -> RPSDOn X P k.
+Proof. exact limclos_psd. Qed.
+Theorem C05_limit_closure_of_limit_features : forall X (P : X -> Prop) k, RLim X P k -> LimClos P k.
+Proof. exact limclos_of_limrep. Qed.
+Theorem C05_limit_closure_expression : forall (sq : R -> R) e n, adm R 0%R Rle n e ->
+  LimClos (dimP R n) (den R 0%R 1%R Rplus Rmult Rminus Rdiv Ropp sq exp e).
+Proof. exact limclos_expr. Qed.
+Theorem C05_limit_closure_sum : forall X (P : X -> Prop) k1 k2, LimClos P k1 -> LimClos P k2 -> LimClos P (fun x z => (k1 x z + k2 x z)%R).
+Proof. exact limclos_add. Qed.
+(* Schur product theorem for the class *)
+Theorem C05_limit_closure_product : forall X (P : X -> Prop) k1 k2, LimClos P k1 -> LimClos P k2 -> LimClos P (fun x z => (k1 x z * k2 x z)%R).
+Proof. exact limclos_mul. Qed.
+Theorem C05_limit_closure_exponential : forall X (P : X -> Prop) c k, (0 <= c)%R -> LimClos P k -> LimClos P (fun x z => exp (c * k x z)).
+Proof. exact limclos_exp. Qed.
+(* the Gaussian kernel in the feature space of k *)
+Theorem C05_limit_closure_gaussian_in_feature_space : forall X (P : X -> Prop) g k, (0 <= g)%R -> LimClos P k ->
+  LimClos P (fun x z => exp (- g * (k x x + k z z - 2 * k x z))).
+Proof. exact limclos_gauss_feature. Qed.
+(* GaussianTaskKernel: the table computed from multi-task data (input, task) is a positive semi-definite DiscreteKernel on
+   the task indices < nt, for every symmetric input kernel of the class, gamma >= 0, all data with inputs in P
+   (tasks without example included) *)
+Theorem C05_psd_gaussian_task_kernel : forall (k : list R -> list R -> R) (P : list R -> Prop),
+  (forall x z, k x z = k z x) -> LimClos P k -> forall g, (0 <= g)%R ->
+  forall data : list (list R * nat), Forall (fun e => P (fst e)) data -> forall nt,
+  RPSDOn nat (fun t => (t < nt)%nat) (k_disc R 0%R (gt_matrix R 0%R 1%R Rplus Rmult Rminus Rdiv Ropp exp k g data nt)).
+Proof. exact psd_gtask. Qed.
+(* MultiTaskKernel = input kernel x task kernel *)
+Theorem C05_psd_multi_task_kernel : forall (k : list R -> list R -> R) (P : list R -> Prop),
+  (forall x z, k x z = k z x) -> LimClos P k -> forall g, (0 <= g)%R ->
+  forall data : list (list R * nat), Forall (fun e => P (fst e)) data ->
+  forall (kin : list R -> list R -> R) (Pin : list R -> Prop) nt, LimClos Pin kin ->
+  RPSDOn (list R * nat) (fun e => Pin (fst e) /\ (snd e < nt)%nat)
+         (k_mtask R 0%R 1%R Rmult kin (gt_matrix R 0%R 1%R Rplus Rmult Rminus Rdiv Ropp exp k g data nt)).
+Proof. exact psd_mtask. Qed.
+Theorem C05_psd_multi_task_kernel_expression : forall (sq : R -> R) e_t e_in n g (data : list (list R * nat)) nt,
+  adm R 0%R Rle n e_t -> adm R 0%R Rle n e_in -> (0 <= g)%R -> Forall (fun e => dimP R n (fst e)) data ->
+  RPSDOn (list R * nat) (fun e => dimP R n (fst e) /\ (snd e < nt)%nat)
+         (k_mtask R 0%R 1%R Rmult (den R 0%R 1%R Rplus Rmult Rminus Rdiv Ropp sq exp e_in)
+                  (gt_matrix R 0%R 1%R Rplus Rmult Rminus Rdiv Ropp exp (den R 0%R 1%R Rplus Rmult Rminus Rdiv Ropp sq exp e_t) g data nt)).
+Proof. exact psd_mtask_expr. Qed.
+Print Assumptions C05_limit_closure_implies_psd.
+Print Assumptions C05_limit_closure_of_limit_features.
+Print Assumptions C05_limit_closure_expression.
+Print Assumptions C05_limit_closure_sum.
+Print Assumptions C05_limit_closure_product.
+Print Assumptions C05_limit_closure_exponential.
+Print Assumptions C05_limit_closure_gaussian_in_feature_space.
+Print Assumptions C05_psd_gaussian_task_kernel.
+Print Assumptions C05_psd_multi_task_kernel.
+Print Assumptions C05_psd_multi_task_kernel_expression.
+Example C05_task_kernel_premises_satisfiable :
+  let data := [([1%R; 2%R], 0%nat); ([0%R; 1%R], 2%nat); ([3%R; 1%R], 0%nat)] in
+  adm R 0%R Rle 2 (ERbf R 1%R) /\ Forall (fun e : list R * nat => dimP R 2 (fst e)) data /\
+  (forall x z : list R, k_gauss R 0%R Rplus Rmult Rminus Ropp exp 1%R x z = k_gauss R 0%R Rplus Rmult Rminus Ropp exp 1%R z x).
+Proof. exact task_hyps_example. Qed.
+(* DiscreteKernel (any ordered field, no axioms): a table that is the Gram matrix of the rows of a factor a has a feature map *)
+Theorem C05_features_discrete_factorised : forall A (zero one : A) add mul sub div opp inv le,
+  OrdField zero one add mul sub div opp inv le -> forall (a : list (list A)) r (tbl : list (list A)),
+  (forall i j, k_disc A zero tbl i j = dot A zero add mul (nth i a []) (nth j a [])) ->
+  GramRepOn A zero add mul le nat (fun i => length (nth i a []) = r) (k_disc A zero tbl).
+Proof. exact gramrep_disc_factor. Qed.
+Print Assumptions C05_features_discrete_factorised.
